@@ -1153,7 +1153,7 @@ def freeze(plan: dict, res: dict) -> dict:
 
 
 def minimise(plan: dict, calib: Calib, cls: str, at: int, budget_n=60) -> dict:
-    budget = [budget_n]
+    budget = [budget_n if not os.environ.get("VERIF_STOP_AFTER_FIRST") else 2]  # regression tooling: no shrinking
     cur = dict(plan)
 
     def test(ops):
